@@ -6,6 +6,7 @@ the loop body is evaluated once.  No path conditions are accumulated for feasibi
 solver is involved.  Scalars are rational functions over Q (nf.RF); aggregates are field-wise;
 unknown library calls are congruent uninterpreted atoms.
 """
+import os
 from fractions import Fraction
 from . import nf
 from .nf import RF, as_rf
@@ -557,6 +558,18 @@ class State:
         return [c.v for c in self.cells]
 
 
+_COVLOG = os.environ.get('VERIF_COVERAGE_LOG')
+_COVSEEN = set()
+if _COVLOG:
+    import atexit
+
+    def _dump_cov():
+        with open(_COVLOG, 'a') as f:
+            for p_ in sorted(_COVSEEN):
+                f.write(p_ + '\n')
+    atexit.register(_dump_cov)
+
+
 class Diverge(Exception):
     pass
 
@@ -609,6 +622,8 @@ class Interp:
         if isinstance(body, str):
             body = self.facts.body(body)
         self.evaluations += 1
+        if _COVLOG:
+            _COVSEEN.add(body['path'])
         if len(self.stack) > self.max_depth or any(f.body is body for f in self.stack):
             raise AnalysisIncomplete('inlining bound/recursion at %s' % body['path'])
         st = State(body)
